@@ -399,6 +399,15 @@ class IdxModel(C10.File):
     def nontrivial(self, c):
         return True
 
+    def oracle(self, ctx, cases, impl, model):
+        """C10's oracle; a failure inside one of C10's OWN known-finding classes (e.g. LazyIndex never checks the idx size) is a
+        matter of C10, reported there: it is not a crash, hang or over-allocation"""
+        fails = C10.File.oracle(self, ctx, cases, impl, model)
+        known10, _ = core.load_known("C10")
+        byid = {c["id"]: c for c in cases}
+        return {i: why for i, why in fails.items()
+                if C10.File.finding_class(self, byid[i], why, impl.get(i)) not in known10}
+
     def finding_class(self, case, reason, reply):
         return None
 
